@@ -1036,6 +1036,86 @@ def c1_capacity_law(F, r):
         r.ok("has_demand_violation: verdicts", f"{len(paths)} combinations of empty/non-empty parts and fit results: violation iff some tested load does not fit; abort only for static delivery")
 
 
+def _verdict(k):
+    return lambda i_, a, h, rl: ("agg", "verdict#" + k, {})
+
+
+def g5_group_compat_laws(F, r):
+    """compatibility: a job with a compatibility value is admitted to a tour iff the tour has none or an EQUAL one; groups: a grouped job is admitted iff the
+    whole problem is being solved and no OTHER tour holds the group (finite evaluation of the whole evaluate functions)"""
+    from .. import ordeval as oe
+    EV = "vrp_core::models::goal::FeatureConstraint::evaluate"
+    ms = [x for x in F.trait_impl_methods(EV) if "CompatibilityConstraint" in x]
+    if len(ms) != 1:
+        raise AnchorError("CompatibilityConstraint::evaluate")
+    m = ms[0]
+    for job in (0, 1):
+        for route in (0, 1):
+            it = oe.Interp(F, m, {1: oe.ref(oe.sym("self")), 2: oe.ref(oe.sym("ctx"))}, variants={"ctx": 0}, fresh=True,
+                           call_models={"::get_job_compatibility": (lambda i_, a, h, rl, job=job: oe.some(oe.ref(oe.sym("job"))) if job else oe.NONE),
+                                        "::get_current_compatibility": (lambda i_, a, h, rl, route=route: oe.some(oe.ref(oe.sym("route"))) if route else oe.NONE),
+                                        "ConstraintViolation::fail": _verdict("fail"), "ConstraintViolation::skip": _verdict("skip")})
+            try:
+                paths = it.explore()
+            except oe.Undecided as e:
+                r.fail(f"Compatibility [job={job},tour={route}]", f"not evaluable: {e}", F.loc(m))
+                continue
+            for p in paths:
+                rel = [a[2] for a in p.assumptions if len(a) == 3 and isinstance(a[2], str) and a[0] != "switch"]
+                same = (not rel) or rel[0] == "E"
+                want_admit = (not job) or (not route) or (bool(rel) and same)
+                if job and route and not rel:
+                    r.fail("Compatibility [job=Some,tour=Some]", "the job's value is not compared with the tour's value", F.loc(m))
+                    continue
+                inst = f"Compatibility [job={'Some' if job else 'None'},tour={'Some' if route else 'None'}{',equal' if rel and same else (',different' if rel else '')}]"
+                admitted = p.ret == oe.NONE
+                if admitted == want_admit:
+                    r.ok(inst, "admitted" if admitted else "rejected")
+                else:
+                    r.fail(inst, ("admitted" if admitted else "rejected") + " — a job may join a tour iff it has no compatibility value, the tour has none yet, or both are EQUAL", F.loc(m))
+    ms = [x for x in F.trait_impl_methods(EV) if "GroupConstraint" in x]
+    if len(ms) != 1:
+        raise AnchorError("GroupConstraint::evaluate")
+    m = ms[0]
+    for job in (0, 1):
+        it = oe.Interp(F, m, {1: oe.ref(oe.sym("self")), 2: oe.ref(oe.sym("ctx"))}, variants={"ctx": 0}, fresh=True, enum_results=True, heap={("self", "total_jobs"): oe.sym("total")},
+                       call_models={"::get_job_group": (lambda i_, a, h, rl, job=job: oe.some(oe.ref(oe.sym("group"))) if job else oe.NONE),
+                                    "::get_jobs_amount": (lambda i_, a, h, rl: oe.sym("amount")),
+                                    "ConstraintViolation::fail": _verdict("fail"), "ConstraintViolation::skip": _verdict("skip")})
+        try:
+            paths = it.explore()
+        except oe.Undecided as e:
+            r.fail(f"Group [job={job}]", f"not evaluable: {e}", F.loc(m))
+            continue
+        for p in paths:
+            rel = [a[2] for a in p.assumptions if len(a) == 3 and isinstance(a[2], str) and a[0] != "switch"]
+            other = [a[2] for a in p.assumptions if a[0] == "callret" and a[3] and a[3].endswith("Iterator::any")]
+            whole = bool(rel) and rel[0] == "E"
+            admitted = p.ret == oe.NONE
+            inst = f"Group [job={'Some' if job else 'None'}" + (f",jobs {'<=>'['LEG'.index(rel[0])]} total" if rel else "") + (f",other tour={'yes' if other[0] else 'no'}" if other else "") + "]"
+            if not job:
+                want = True
+            elif not whole:
+                want = False
+            elif not other:
+                r.fail(inst, "the other tours are not consulted for the group", F.loc(m))
+                continue
+            else:
+                want = not other[0]
+            if admitted == want:
+                r.ok(inst, "admitted" if admitted else "rejected")
+            else:
+                r.fail(inst, ("admitted" if admitted else "rejected") + " — a grouped job is admitted iff the whole problem is solved and no other tour holds its group", F.loc(m))
+    # the `other tour` test excludes the tour itself and looks for the job's group
+    fam = F.family(m)
+    neq = [t for g in fam for _, t in mir.calls(F.fns[g]) if t["callee"] in ("core::cmp::PartialEq::ne", "core::cmp::PartialEq::eq")]
+    has = [t for g in fam for _, t in mir.calls(F.fns[g]) if t["callee"].endswith("::contains")]
+    if any(t["callee"].endswith("::ne") for t in neq) and has:
+        r.ok("Group: other tours", "tours of a different actor (`!=`) whose current groups contain the job's group")
+    else:
+        r.fail("Group: other tours", "the scan over other tours no longer excludes the tour itself with `!=` or no longer tests `contains(group)`", F.loc(m))
+
+
 CAP_NAMES = ("capacity", "available", "resource_available", "resources", "resource_capacity")
 
 
@@ -1438,6 +1518,7 @@ def run(ctx):
     ctx.run("C01-Q1", "no comparison in constraint code relates a value to itself (a constant guard)", q1_no_self_comparison, floor=1)
     from .common import operator_agreement
     ctx.run("C01-O2", "load / cost / statistic operators: every impl Add/Sub/Mul computes with its own operator family", operator_agreement, floor=8)
+    ctx.run("C01-G5", "compatibility / group admission laws (finite evaluation of the evaluate functions)", g5_group_compat_laws, floor=10)
     ctx.run("C01-C1", "capacity: demand parts tested against their own load summaries; violation iff some load does not fit; abort only for static delivery", c1_capacity_law, floor=5)
     ctx.run("C01-W1", "time windows: admitted iff no arrival after its latest time and the shift covers the windows; fail only on target-independent facts (finite evaluation)", w1_time_window_law, floor=1)
     ctx.run("C01-N1", "reachability: rejected iff a new leg has a negative distance (finite evaluation over <0, =0, >0 of both legs)", n1_reachable_law, floor=6)
